@@ -4,7 +4,11 @@ pub mod c03;
 pub mod c04;
 pub mod c05;
 pub mod c06;
+pub mod c08;
 pub mod c10;
+pub mod c11;
+pub mod c13;
+pub mod miri;
 
 use crate::report::{Report, Tier};
 use serde_json::Value;
@@ -117,6 +121,41 @@ pub fn plan(id: &str) -> Option<Plan> {
             assumptions: BASE_ASSUMPTIONS.to_vec(),
             floor: 50,
             engines: vec![Engine { name: "sim", salt: 1, quick: 4000, thorough: 200_000, serial: false, run: Box::new(|s, t| c10::scenario(s, t)) }],
+            extra: None,
+        },
+        "C11" => Plan {
+            id: "C11",
+            rule: "scenario = coalesce layer over a gated probe: 2-12 requests over 1-3 keys arriving on a logical (poll-count) clock; the director completes inner calls ok/err, panics them, drops leaders before first poll / mid-flight / at the step of completion, drops waiters; seeded poll order incl. strict priorities, spurious polls; a fair round-robin drain phase bounds progress in polls; oracle = per-key in-flight counter + serial matching; non-trivial iff >=1 waiter joined an in-flight leader and >=1 leader was dropped or panicked; distinct = (poll trace, outcomes) signature. stress: 48 tasks on 4-16 workers, 3 keys, random aborts, judged on per-key single flight and value-belongs-to-key only",
+            assumptions: BASE_ASSUMPTIONS.to_vec(),
+            floor: 50,
+            engines: vec![
+                Engine { name: "sim", salt: 1, quick: 6000, thorough: 400_000, serial: false, run: Box::new(|s, t| c11::scenario(s, t, false)) },
+                Engine { name: "stress", salt: 2, quick: 2, thorough: 10, serial: true, run: Box::new(|s, t| c11::stress(s, t.pick(20_000, 100_000))) },
+                Engine { name: "miri", salt: 3, quick: 8, thorough: 64, serial: false, run: Box::new(|s, t| miri::run("C11", s, t.pick(2, 4), None, 0.0)) },
+            ],
+            extra: None,
+        },
+        "C08" => Plan {
+            id: "C08",
+            rule: "one case = one concurrent history of try_withdraw/deposit calls on a shared token-bucket or AIMD budget (tiny budgets: initial 0-3, max 1-4) with call/return stamps from one atomic clock at the client boundary; checked for conservation at quiescence, balance <= max on every sample, and linearizability (Wing-Gong search; AIMD: relaxed cap in [min,max]); native: thousands of rounds on real threads started from a barrier; Miri: 4 threads x 3 ops under -Zmiri-many-seeds with preemption; non-trivial iff a deposit overlapped another thread's operation in real time; distinct = distinct call/return order + results",
+            assumptions: vec![BASE_ASSUMPTIONS[1], BASE_ASSUMPTIONS[2], "Miri's scheduler/weak-memory model and the OS scheduler produce only a sample of the interleavings of the atomic steps"],
+            floor: 20,
+            engines: vec![
+                Engine { name: "stress", salt: 1, quick: 16, thorough: 64, serial: false, run: Box::new(|s, t| c08::stress(s, t.pick(400, 4000))) },
+                Engine { name: "miri", salt: 2, quick: 4, thorough: 16, serial: false, run: Box::new(|s, t| miri::run("C08", s, 1, Some(t.pick(16, 128) as u32), 0.1)) },
+            ],
+            extra: None,
+        },
+        "C13" => Plan {
+            id: "C13",
+            rule: "sim: adaptive limiter (AIMD/Vegas, min<=max incl. min=max and min=0, increase 1-5, decrease 0/0.5/0.9/1, alpha/beta grids) over a gated probe on a logical clock with virtual-time jumps; 3-12 callers whose inner calls finish ok/slow/err, panic, or are dropped mid-flight / before first poll; before every poll_ready the harness's own in-flight count and limit() are read atomically; after the history in_flight() and a fresh caller's readiness are inspected; non-trivial iff >=1 call was dropped or panicked in flight and the limit took >=2 values. stress/miri: threads of random record_success/record_failure/record_dropped on the algorithms with a sampler asserting the bounds",
+            assumptions: BASE_ASSUMPTIONS.to_vec(),
+            floor: 50,
+            engines: vec![
+                Engine { name: "sim", salt: 1, quick: 6000, thorough: 300_000, serial: false, run: Box::new(|s, t| c13::scenario(s, t)) },
+                Engine { name: "stress", salt: 2, quick: 16, thorough: 64, serial: false, run: Box::new(|s, t| c13::stress(s, t.pick(50, 500))) },
+                Engine { name: "miri", salt: 3, quick: 2, thorough: 16, serial: false, run: Box::new(|s, t| miri::run("C13", s, 1, Some(t.pick(16, 64) as u32), 0.1)) },
+            ],
             extra: None,
         },
         _ => return None,
